@@ -153,13 +153,16 @@ Fixpoint dec_value (ds : bytes) (acc : Z) : Z :=
   | c :: r => dec_value r (acc * 10 + Z.of_N (c - 48))%Z
   end.
 
+(* an optional sign: (negative?, the rest) *)
+Definition split_sign (s : bytes) : bool * bytes :=
+  match s with
+  | c :: r => if c =? 45 then (true, r) else if c =? 43 then (false, r) else (false, s)
+  | [] => (false, s)
+  end.
+
 (* i64::from_str: [+-]? digit+, in range *)
 Definition parse_i64 (s : bytes) : option Z :=
-  let '(neg, body) := match s with
-                      | 45 :: r => (true, r)
-                      | 43 :: r => (false, r)
-                      | _ => (false, s)
-                      end in
+  let '(neg, body) := split_sign s in
   match digits body with
   | ((_ :: _) as ds, []) =>
       let v := dec_value ds 0 in
@@ -192,18 +195,14 @@ Definition f64_of_dec (neg : bool) (m : Z) (e10 : Z) : spec_float :=
 (* f64::from_str (core::num::dec2flt): [+-]? ( "inf" | "infinity" | "nan" (any case)
                                            | digit* [ "." digit* ] [ (e|E) [+-]? digit+ ] with a digit in the mantissa ) *)
 Definition parse_f64 (s : bytes) : option spec_float :=
-  let '(neg, body) := match s with
-                      | 45 :: r => (true, r)
-                      | 43 :: r => (false, r)
-                      | _ => (false, s)
-                      end in
+  let '(neg, body) := split_sign s in
   if eq_ci body (bs "inf") || eq_ci body (bs "infinity") then Some (S754_infinity neg)
   else if eq_ci body (bs "nan") then Some S754_nan
   else
     let '(ip, r1) := digits body in
     let '(fp, r2) := match r1 with
-                     | 46 :: r => digits r
-                     | _ => ([], r1)
+                     | c :: r => if c =? 46 then digits r else ([], r1)
+                     | [] => ([], r1)
                      end in
     match ip ++ fp with
     | [] => None
@@ -214,11 +213,7 @@ Definition parse_f64 (s : bytes) : option spec_float :=
         | [] => Some (f64_of_dec neg m (- fl))
         | c :: r3 =>
             if (c =? 101) || (c =? 69) then
-              let '(eneg, r4) := match r3 with
-                                 | 45 :: r => (true, r)
-                                 | 43 :: r => (false, r)
-                                 | _ => (false, r3)
-                                 end in
+              let '(eneg, r4) := split_sign r3 in
               match digits r4 with
               | ((_ :: _) as es, []) =>
                   let ev := dec_value es 0 in       (* f64_of_dec never raises 10 to a huge power *)
@@ -236,15 +231,19 @@ Fixpoint no_newline (s : bytes) : bool :=
 (* escape_quotes: Regex ^"(.+)"$ replaced by $1 *)
 Definition escape_quotes (s : bytes) : bytes :=
   match s with
-  | 34 :: r =>
-      match rev r with
-      | 34 :: m => match m with
-                   | [] => s
-                   | _ => if no_newline m then rev m else s
-                   end
-      | _ => s
-      end
-  | _ => s
+  | c :: r =>
+      if c =? 34 then
+        match rev r with
+        | d :: m => if d =? 34 then
+                      match m with
+                      | [] => s
+                      | _ => if no_newline m then rev m else s
+                      end
+                    else s
+        | [] => s
+        end
+      else s
+  | [] => s
   end.
 
 Definition cval_from (raw : bytes) : cval :=
@@ -266,6 +265,13 @@ Fixpoint starts_with (s p : bytes) {struct p} : bool :=
   match p with
   | [] => true
   | c :: p' => match s with x :: s' => (x =? c) && starts_with s' p' | [] => false end
+  end.
+
+(* a literal: the rest of the input when it starts with p *)
+Fixpoint strip_prefix (p s : bytes) {struct p} : option bytes :=
+  match p with
+  | [] => Some s
+  | c :: p' => match s with x :: s' => if x =? c then strip_prefix p' s' else None | [] => None end
   end.
 
 Fixpoint skip (s : bytes) : bytes :=
@@ -382,20 +388,22 @@ Definition lex_phrase (s : bytes) : option (bytes * bytes) :=
 
 (* NUM_VALUE = ("-"|"\\-")? ~ ASCII_DIGIT+ ~ ("." ~ ASCII_DIGIT+)? *)
 Definition num_value (s : bytes) : option (bytes * bytes) :=
-  let '(sg, r0) := match s with
-                   | 45 :: r => ([45], r)
-                   | 92 :: 45 :: r => ([92; 45], r)
-                   | _ => ([], s)
+  let '(sg, r0) := match strip_prefix [45] s with
+                   | Some r => ([45], r)
+                   | None => match strip_prefix [92; 45] s with
+                             | Some r => ([92; 45], r)
+                             | None => ([], s)
+                             end
                    end in
   match digits r0 with
   | ((_ :: _) as ip, r1) =>
-      match r1 with
-      | 46 :: r2 =>
+      match strip_prefix [46] r1 with
+      | Some r2 =>
           match digits r2 with
           | ((_ :: _) as fp, r3) => Some (sg ++ ip ++ 46 :: fp, r3)
           | _ => Some (sg ++ ip, r1)
           end
-      | _ => Some (sg ++ ip, r1)
+      | None => Some (sg ++ ip, r1)
       end
   | _ => None
   end.
@@ -404,13 +412,13 @@ Definition num_value (s : bytes) : option (bytes * bytes) :=
 Definition lex_numeric_term (s : bytes) : option (bytes * bytes) :=
   match num_value s with
   | Some (a, r) =>
-      match r with
-      | 69 :: r1 =>
+      match strip_prefix [69] r with
+      | Some r1 =>
           match num_value r1 with
           | Some (b, r2) => Some (a ++ 69 :: b, r2)
           | None => Some (a, r)
           end
-      | _ => Some (a, r)
+      | None => Some (a, r)
       end
   | None => None
   end.
@@ -442,13 +450,19 @@ Inductive pvalue :=
 
 (* operator = { GT_EQ | LT_EQ | GT | LT } *)
 Definition lex_operator (s : bytes) : option (cmpop * bytes) :=
-  match s with
-  | 62 :: 61 :: r => Some (Gte, r)
-  | 60 :: 61 :: r => Some (Lte, r)
-  | 62 :: r => Some (Gt, r)
-  | 60 :: r => Some (Lt, r)
-  | _ => None
-  end.
+  match strip_prefix (bs ">=") s with
+  | Some r => Some (Gte, r)
+  | None =>
+  match strip_prefix (bs "<=") s with
+  | Some r => Some (Lte, r)
+  | None =>
+  match strip_prefix (bs ">") s with
+  | Some r => Some (Gt, r)
+  | None =>
+  match strip_prefix (bs "<") s with
+  | Some r => Some (Lt, r)
+  | None => None
+  end end end end.
 
 (* comparison = { operator ~ (NUMERIC_TERM | TERM) }   (inside the compound-atomic `value`: no skipping) *)
 Definition parse_comparison (s : bytes) : option (pvalue * bytes) :=
@@ -471,8 +485,8 @@ Definition parse_range (s : bytes) : option (pvalue * bytes) :=
       if (c =? 91) || (c =? 123) then
         match lex_range_value (skip r) with
         | Some (lo, r1) =>
-            match skip r1 with
-            | 84 :: 79 :: r2 =>
+            match strip_prefix (bs "TO") (skip r1) with
+            | Some r2 =>
                 match lex_range_value (skip r2) with
                 | Some (hi, r3) =>
                     match skip r3 with
@@ -481,7 +495,7 @@ Definition parse_range (s : bytes) : option (pvalue * bytes) :=
                     end
                 | None => None
                 end
-            | _ => None
+            | None => None
             end
         | None => None
         end
@@ -630,22 +644,32 @@ Definition parse_multiterm (s : bytes) : option (list bytes * bytes) :=
 
 (* modifiers = { PLUS | NOT } *)
 Definition parse_modifiers (s : bytes) : option (bool * bytes) :=
-  match s with
-  | 43 :: r => Some (false, r)
-  | 78 :: 79 :: 84 :: r => Some (true, r)
-  | 45 :: r => Some (true, r)
-  | _ => None
-  end.
+  match strip_prefix (bs "+") s with
+  | Some r => Some (false, r)
+  | None =>
+  match strip_prefix (bs "NOT") s with
+  | Some r => Some (true, r)
+  | None =>
+  match strip_prefix (bs "-") s with
+  | Some r => Some (true, r)
+  | None => None
+  end end end.
 
 (* conjunction = { AND | OR } *)
 Definition parse_conjunction (s : bytes) : option (bool * bytes) :=
-  match s with
-  | 65 :: 78 :: 68 :: r => Some (false, r)
-  | 38 :: 38 :: r => Some (false, r)
-  | 79 :: 82 :: r => Some (true, r)
-  | 124 :: 124 :: r => Some (true, r)
-  | _ => None
-  end.
+  match strip_prefix (bs "AND") s with
+  | Some r => Some (false, r)
+  | None =>
+  match strip_prefix (bs "&&") s with
+  | Some r => Some (false, r)
+  | None =>
+  match strip_prefix (bs "OR") s with
+  | Some r => Some (true, r)
+  | None =>
+  match strip_prefix (bs "||") s with
+  | Some r => Some (true, r)
+  | None => None
+  end end end end.
 
 (* field = ${ TERM ~ COLON }, optional *)
 Definition parse_field_opt (s : bytes) : option bytes * bytes :=
@@ -662,24 +686,24 @@ Section Query.
 
   (* clause = { matchall | (field? ~ value) | (field? ~ LPAREN ~ query ~ RPAREN) } *)
   Definition parse_clause (df : bytes) (s : bytes) : option (vres node * bytes) :=
-    match s with
-    | 42 :: 58 :: 42 :: r => Some (VOk NAll, r)                     (* matchall = @{ STAR ~ COLON ~ STAR } *)
-    | _ =>
+    match strip_prefix (bs "*:*") s with
+    | Some r => Some (VOk NAll, r)                                  (* matchall = @{ STAR ~ COLON ~ STAR } *)
+    | None =>
         let '(fld, r1) := parse_field_opt s in
         match parse_value (skip r1) with
         | Some (v, r2) => Some (clause_node (or_default fld df) v, r2)
         | None =>
-            match skip r1 with
-            | 40 :: r2 =>
+            match strip_prefix [40] (skip r1) with
+            | Some r2 =>
                 match sub_query (or_default fld df) (skip r2) with
                 | Some (items, r3) =>
-                    match skip r3 with
-                    | 41 :: r4 => Some (fold_query (or_default fld df) items, r4)
-                    | _ => None
+                    match strip_prefix [41] (skip r3) with
+                    | Some r4 => Some (fold_query (or_default fld df) items, r4)
+                    | None => None
                     end
                 | None => None
                 end
-            | _ => None
+            | None => None
             end
         end
     end.
